@@ -208,6 +208,11 @@ func c05r1(p *Program, r *Report) {
 			}
 		}
 		if !ok {
+			if ok4, why4 := dischargeByReplay(p, ob); ok4 {
+				ok, why = true, why4
+			}
+		}
+		if !ok {
 			if reason, exempt := safeByInvariant[constructKey(ob.Fn, ob.Node)]; exempt {
 				ok, why = true, "frozen safe-by-invariant: "+reason
 			}
